@@ -1,0 +1,11 @@
+//go:build !verif
+
+// Package verifhook holds hooks for the external verification harness. Without
+// the "verif" build tag every hook is an empty function.
+package verifhook
+
+// Yield marks a point where goroutines touch shared state.
+func Yield(site string) {}
+
+// BeforeWrite is called before a write reaches the object store or the ref store.
+func BeforeWrite(kind string) error { return nil }
